@@ -627,11 +627,15 @@ func c13Stress(c *c13Case) *c13StressResult {
 			defer wg.Done()
 			for i := 0; atomic.LoadInt32(&stop) == 0; i++ {
 				u, _ := url.Parse(probes[(i+w)%len(probes)])
-				switch i % 3 {
+				switch i % 5 {
 				case 0:
 					running.GetBackend(u)
 				case 1:
 					running.IsUrlAllowed(u)
+				case 2:
+					running.GetSecret(u)
+				case 3:
+					running.GetCompatBackend()
 				default:
 					running.GetBackends()
 				}
